@@ -35,13 +35,25 @@
 //!   streamout bytes <item,item,..|none>  item = o<bytes> | x<raw error bytes>  a function with output = Streaming
 //!                                       -> items seen by the remote caller (every item the code relays)
 //!                                          ## ok|fail stream-out (same text and same first error as the direct caller)
+//!   wcall <widefn> <reqplace> <resplace> echo|fail <wide json> [<Variant> <msg>]
+//!                                       a value with wide (8/16-byte) out-of-line data through a binary codec, the request / response
+//!                                       body handed over in its own allocation (`own`) or as a sub-slice of a larger buffer starting
+//!                                       <n> bytes (0..15) after a 16-byte boundary -> ok <json> | err ..  ## ok|fail pipeline
+//!   ws interactive|batch <msg,msg,..|none>   a `Websocket<JsonEncoding, JsonEncoding>` function over an in-memory duplex whose client
+//!                                       write half only transmits on flush; interactive = wait for answer k before sending k+1
+//!                                       -> answers seen (`ehang` = nothing arrives) ## ok|fail websocket (= the direct conversation)
 //!  (c) corruption (testing)
 //!   corrupth <hexfn> req|res <mut> <arg>-> result                                 ## ok|fail panic
 //!   corrupt <typedfn> req|res <mut> echo|fail.. (as tcall) -> done               ## ok|fail panic
 //! <mut> = t<n> truncate to n mod (len+1) bytes | f<i> flip bit i mod 8*len | a<x> append byte x.
 #![allow(deprecated)]
 use bytes::Bytes;
-use futures::{executor::block_on, Stream, StreamExt};
+use futures::{
+    channel::mpsc,
+    executor::{block_on, LocalPool, LocalSpawner},
+    task::LocalSpawnExt,
+    FutureExt, Sink, Stream, StreamExt,
+};
 use http::{Method, Request, Response};
 use hx_common::*;
 use server_fn::{
@@ -52,7 +64,7 @@ use server_fn::{
     request::{ClientReq, Req},
     response::{generic::Body, ClientRes, Res},
     server::Server,
-    ContentType, Decodes, Encodes, Format, FormatType, Http, ServerFn, ServerFnError, ServerFnTraitObj,
+    BoxedStream, ContentType, Decodes, Encodes, Format, FormatType, Http, ServerFn, ServerFnError, ServerFnTraitObj, Websocket,
 };
 use server_fn_macro_default::server;
 use std::{
@@ -286,6 +298,8 @@ pub struct LoopRes {
     status: u16,
     location: String,
     chunks: Vec<Result<Bytes, Bytes>>,
+    /// where the transport puts the body it hands to the decoder (see `place`)
+    place: Option<usize>,
 }
 
 impl LoopRes {
@@ -294,7 +308,24 @@ impl LoopRes {
         for c in self.chunks {
             v.extend_from_slice(&c?);
         }
-        Ok(Bytes::from(v))
+        Ok(place(&v, self.place))
+    }
+}
+
+/// the body as the transport delivers it: `None` = in its own allocation; `Some(k)` = as a sub-slice of a
+/// larger receive buffer, starting `k` bytes after a 16-byte boundary (what zero-copy body slices after a
+/// variable-length head look like)
+fn place(body: &[u8], at: Option<usize>) -> Bytes {
+    match at {
+        None => Bytes::from(body.to_vec()),
+        Some(k) => {
+            let mut buf = vec![0xAAu8; body.len() + 48];
+            let start = (16 - (buf.as_ptr() as usize) % 16) % 16 + k % 16;
+            buf[start..start + body.len()].copy_from_slice(body);
+            let b = Bytes::from(buf).slice(start..start + body.len());
+            debug_assert_eq!((b.as_ptr() as usize) % 16, k % 16);
+            b
+        }
     }
 }
 
@@ -381,16 +412,65 @@ where
         ),
         E,
     > {
-        Err::<
-            (
-                futures::stream::Once<std::future::Ready<Result<Bytes, Bytes>>>,
-                futures::sink::Drain<Result<Bytes, Bytes>>,
-                Self::WebsocketResponse,
-            ),
-            _,
-        >(E::from_server_fn_error(ServerFnErrorErr::Response(
-            "Websockets are not supported on this platform.".to_string(),
-        )))
+        // the server ends of the in-memory duplex opened by `LoopClient::open_websocket`
+        match WS_ENDS.with(|w| w.borrow_mut().take()) {
+            Some((rx, tx)) => Ok((rx, tx, Response::new(Body::Sync(Bytes::new())))),
+            None => Err(E::from_server_fn_error(ServerFnErrorErr::Response(
+                "Websockets are not supported on this platform.".to_string(),
+            ))),
+        }
+    }
+}
+
+type Frame = Result<Bytes, Bytes>;
+
+thread_local! {
+    /// the executor all websocket tasks (client forwarder, server forwarder, caller) run on
+    static SPAWNER: RefCell<Option<LocalSpawner>> = RefCell::new(None);
+    static WS_ENDS: RefCell<Option<(mpsc::UnboundedReceiver<Frame>, mpsc::UnboundedSender<Frame>)>> = RefCell::new(None);
+}
+
+fn spawn_local(future: impl Future<Output = ()> + 'static) -> bool {
+    SPAWNER.with(|s| match s.borrow().as_ref() {
+        Some(sp) => sp.spawn_local(future).is_ok(),
+        None => false,
+    })
+}
+
+/// the client's write half: `start_send` only queues, frames reach the wire on `poll_flush` / `poll_close`
+/// (or when more than `WRITE_BUFFER` frames are queued) — the `Sink` contract, as tungstenite-like sockets do
+struct BufferedWriter {
+    queue: Vec<Frame>,
+    wire: mpsc::UnboundedSender<Frame>,
+}
+const WRITE_BUFFER: usize = 8;
+impl BufferedWriter {
+    fn write_out(&mut self) -> Result<(), mpsc::SendError> {
+        for f in self.queue.drain(..) {
+            self.wire.unbounded_send(f).map_err(|e| e.into_send_error())?;
+        }
+        Ok(())
+    }
+}
+impl Sink<Frame> for BufferedWriter {
+    type Error = mpsc::SendError;
+    fn poll_ready(self: Pin<&mut Self>, _: &mut Context<'_>) -> Poll<Result<(), Self::Error>> {
+        Poll::Ready(Ok(()))
+    }
+    fn start_send(mut self: Pin<&mut Self>, item: Frame) -> Result<(), Self::Error> {
+        self.queue.push(item);
+        if self.queue.len() > WRITE_BUFFER {
+            self.write_out()?;
+        }
+        Ok(())
+    }
+    fn poll_flush(mut self: Pin<&mut Self>, _: &mut Context<'_>) -> Poll<Result<(), Self::Error>> {
+        Poll::Ready(self.write_out())
+    }
+    fn poll_close(mut self: Pin<&mut Self>, _: &mut Context<'_>) -> Poll<Result<(), Self::Error>> {
+        let r = self.write_out();
+        self.wire.close_channel();
+        Poll::Ready(r)
     }
 }
 
@@ -405,8 +485,12 @@ where
     type Request = SReq;
     type Response = Response<Body>;
 
-    fn spawn(_future: impl Future<Output = ()> + Send + 'static) -> Result<(), E> {
-        Err(E::from_server_fn_error(ServerFnErrorErr::Request("no executor in the loop-back server".into())))
+    fn spawn(future: impl Future<Output = ()> + Send + 'static) -> Result<(), E> {
+        if spawn_local(future) {
+            Ok(())
+        } else {
+            Err(E::from_server_fn_error(ServerFnErrorErr::Request("no executor in the loop-back server".into())))
+        }
     }
 }
 
@@ -450,6 +534,9 @@ struct Transport {
     res_mut: Option<Mutn>,
     /// send the request like a browser `<form>` does: `Accept: text/html` and this `Referer`
     form: Option<Option<String>>,
+    /// body placement of the request (seen by the server's decoder) and of the response (the client's)
+    req_place: Option<usize>,
+    res_place: Option<usize>,
 }
 
 /// the last raw response seen by the transport: status, `Location`, body
@@ -514,9 +601,9 @@ async fn collect_body(body: Body) -> Vec<Result<Bytes, Bytes>> {
 }
 
 async fn transport<E: FromServerFnError>(req: LoopReq) -> Result<LoopRes, E> {
-    let (canned, req_mut, res_mut, form) = TRANSPORT.with(|t| {
+    let (canned, req_mut, res_mut, form, req_place, res_place) = TRANSPORT.with(|t| {
         let t = t.borrow();
-        (t.canned.clone(), t.req_mut.clone(), t.res_mut.clone(), t.form.clone())
+        (t.canned.clone(), t.req_mut.clone(), t.res_mut.clone(), t.form.clone(), t.req_place, t.res_place)
     });
     let LoopReq { method, path, mut query, content_type, accepts, body } = req;
     let mut body: Vec<u8> = match body {
@@ -536,7 +623,7 @@ async fn transport<E: FromServerFnError>(req: LoopReq) -> Result<LoopRes, E> {
         }
     }
     if let Some((status, b)) = canned {
-        return Ok(LoopRes { status, location: String::new(), chunks: vec![Ok(Bytes::from(b))] });
+        return Ok(LoopRes { status, location: String::new(), chunks: vec![Ok(Bytes::from(b))], place: res_place });
     }
     let uri = match &query {
         Some(q) => format!("{path}?{q}"),
@@ -555,7 +642,7 @@ async fn transport<E: FromServerFnError>(req: LoopReq) -> Result<LoopRes, E> {
         None => builder.header(http::header::ACCEPT, accepts),
     };
     let request = builder
-        .body(Bytes::from(body))
+        .body(place(&body, req_place))
         .map_err(|e| E::from_server_fn_error(ServerFnErrorErr::Request(e.to_string())))?;
     let res = dispatch(request).await;
     let status = res.status().as_u16();
@@ -574,7 +661,7 @@ async fn transport<E: FromServerFnError>(req: LoopReq) -> Result<LoopRes, E> {
             chunks = vec![Ok(Bytes::from(mutate(m, b)))];
         }
     }
-    Ok(LoopRes { status, location, chunks })
+    Ok(LoopRes { status, location, chunks, place: res_place })
 }
 
 pub struct LoopClient;
@@ -592,9 +679,8 @@ where
         transport::<E>(req)
     }
 
-    #[allow(unreachable_code)]
     fn open_websocket(
-        _path: &str,
+        path: &str,
     ) -> impl Future<
         Output = Result<
             (
@@ -604,18 +690,31 @@ where
             E,
         >,
     > + Send {
-        async {
-            Err::<
-                (
-                    futures::stream::Once<std::future::Ready<Result<Bytes, Bytes>>>,
-                    futures::sink::Drain<Result<Bytes, Bytes>>,
-                ),
-                _,
-            >(E::from_server_fn_error(ServerFnErrorErr::Request("no websocket".into())))
+        let path = path.to_string();
+        async move {
+            // an in-memory duplex; the upgrade request goes to the registered handler like any other
+            let (c2s_tx, c2s_rx) = mpsc::unbounded::<Frame>();
+            let (s2c_tx, s2c_rx) = mpsc::unbounded::<Frame>();
+            WS_ENDS.with(|w| *w.borrow_mut() = Some((c2s_rx, s2c_tx)));
+            let request = Request::builder()
+                .method(Method::GET)
+                .uri(path)
+                .body(Bytes::new())
+                .map_err(|e| E::from_server_fn_error(ServerFnErrorErr::Request(e.to_string())))?;
+            let res = dispatch(request).await;
+            WS_ENDS.with(|w| *w.borrow_mut() = None);
+            if res.status().as_u16() >= 400 {
+                let chunks = collect_body(res.into_body()).await;
+                let body: Vec<u8> = chunks.into_iter().flat_map(|c| c.unwrap_or_else(|e| e).to_vec()).collect();
+                return Err(E::de(Bytes::from(body)));
+            }
+            Ok((s2c_rx, BufferedWriter { queue: vec![], wire: c2s_tx }))
         }
     }
 
-    fn spawn(_future: impl Future<Output = ()> + Send + 'static) {}
+    fn spawn(future: impl Future<Output = ()> + Send + 'static) {
+        spawn_local(future);
+    }
 }
 
 // ------------------------------------------------------------------ a codec the model can compute: hex text
@@ -1049,6 +1148,158 @@ pub async fn x_patchrkyv_in(p: Payload, mode: u8, kind: u8, msg: String) -> Resu
 #[server(name = XPutserdeliteIn, prefix = "/x", input = PutSerdeLite, output = PatchSerdeLite, input_derive = (Clone, serde_lite::Serialize, serde_lite::Deserialize), client = LoopClient, server = LoopServer)]
 pub async fn x_putserdelite_in(p: Payload, mode: u8, kind: u8, msg: String) -> Result<Payload, ServerFnError> {
     typed_body(p, mode, kind, msg, |v, m| mk_n(v, m).unwrap())
+}
+
+// ------------------------------------------------------------------ values with wide out-of-line data
+
+/// the inline part is 4-aligned (relative pointers, `u32` lengths); the elements of the vectors and the boxed
+/// value need 8 / 16 bytes alignment and live out of line
+#[derive(Clone, Debug, PartialEq, serde::Serialize, serde::Deserialize, rkyv::Archive, rkyv::Serialize, rkyv::Deserialize)]
+pub struct Wide {
+    pub id: u32,
+    pub readings: Vec<u64>,
+    pub fl: Vec<f64>,
+    pub big: Vec<u128>,
+    pub boxed: Option<Box<i128>>,
+    pub note: String,
+}
+
+macro_rules! wide_fn {
+    ($f:ident, $S:ident, $ep:literal, $in:ident, $out:ident) => {
+        #[server(name = $S, prefix = "/api", endpoint = $ep, input = $in, output = $out, client = LoopClient, server = LoopServer)]
+        pub async fn $f(w: Wide, mode: u8, kind: u8, msg: String) -> Result<Wide, ServerFnError> {
+            if mode == 0 {
+                Ok(w)
+            } else {
+                Err(mk_n(VARIANTS[kind as usize % VARIANTS.len()], msg).unwrap())
+            }
+        }
+    };
+}
+wide_fn!(w_rkyv, WRkyv, "w_rkyv", Rkyv, Rkyv);
+wide_fn!(w_cbor, WCbor, "w_cbor", Cbor, Cbor);
+wide_fn!(w_msgpack, WMsgpack, "w_msgpack", MsgPack, MsgPack);
+wide_fn!(w_postcard, WPostcard, "w_postcard", Postcard, Postcard);
+wide_fn!(w_json_rkyv, WJsonRkyv, "w_json_rkyv", Json, Rkyv);
+wide_fn!(w_rkyv_json, WRkyvJson, "w_rkyv_json", Rkyv, Json);
+wide_fn!(w_patchcbor_putrkyv, WPatchcborPutrkyv, "w_patchcbor_putrkyv", PatchCbor, PutRkyv);
+
+const WIDE_FNS: &[&str] = &["w_rkyv", "w_cbor", "w_msgpack", "w_postcard", "w_json_rkyv", "w_rkyv_json", "w_patchcbor_putrkyv"];
+
+fn wide_both(
+    name: &str,
+    w: &Wide,
+    mode: u8,
+    kind: u8,
+    msg: &String,
+) -> Option<(Result<Wide, ServerFnError>, Result<Wide, ServerFnError>)> {
+    macro_rules! arms {
+        ($( $f:ident => $S:ident ),*) => {
+            match name {
+                $( stringify!($f) => Some((
+                    block_on($S { w: w.clone(), mode, kind, msg: msg.clone() }.run_on_client()),
+                    block_on($f(w.clone(), mode, kind, msg.clone())),
+                )), )*
+                _ => None,
+            }
+        };
+    }
+    arms!(w_rkyv => WRkyv, w_cbor => WCbor, w_msgpack => WMsgpack, w_postcard => WPostcard, w_json_rkyv => WJsonRkyv,
+        w_rkyv_json => WRkyvJson, w_patchcbor_putrkyv => WPatchcborPutrkyv)
+}
+
+fn show_wide_res(r: &Result<Wide, ServerFnError>) -> String {
+    match r {
+        Ok(w) => format!("ok {}", hex(serde_json::to_string(w).unwrap().as_bytes())),
+        Err(e) => format!("err {}", show_err(e)),
+    }
+}
+
+fn parse_place(s: &str) -> Option<Option<usize>> {
+    if s == "own" {
+        Some(None)
+    } else {
+        s.parse::<usize>().ok().filter(|k| *k < 16).map(Some)
+    }
+}
+
+// ------------------------------------------------------------------ websocket protocol
+
+/// what the server answers to one message: `!..` is refused with an error item, anything else is echoed
+fn ws_reply(item: Result<String, ServerFnError>) -> Result<String, ServerFnError> {
+    match item {
+        Ok(s) if s.starts_with('!') => Err(ServerFnError::ServerError(s)),
+        Ok(s) => Ok(format!("re:{s}")),
+        Err(e) => Err(e),
+    }
+}
+
+#[server(name = WsEcho, prefix = "/api", endpoint = "ws_echo", protocol = Websocket<JsonEncoding, JsonEncoding>, client = LoopClient, server = LoopServer)]
+pub async fn ws_echo(
+    input: BoxedStream<String, ServerFnError>,
+) -> Result<BoxedStream<String, ServerFnError>, ServerFnError> {
+    let s: Pin<Box<dyn Stream<Item = Result<String, ServerFnError>> + Send>> = input.into();
+    Ok(s.map(ws_reply).into())
+}
+
+/// one conversation; `interactive`: the caller waits for the answer to message k before it sends k+1,
+/// otherwise it pushes everything, ends its input and then reads.  `Err("hang")` = nothing arrives any more
+fn converse(remote: bool, interactive: bool, msgs: &[String]) -> Vec<Result<Vec<u8>, String>> {
+    let mut pool = LocalPool::new();
+    SPAWNER.with(|s| *s.borrow_mut() = Some(pool.spawner()));
+    let (in_tx, in_rx) = mpsc::unbounded::<String>();
+    let input: BoxedStream<String, ServerFnError> = in_rx.map(Ok).into();
+    let started = if remote { pool.run_until(WsEcho { input }.run_on_client()) } else { pool.run_until(ws_echo(input)) };
+    let mut seen = vec![];
+    match started {
+        Err(e) => seen.push(Err(format!("start:{}", show_err(&e)))),
+        Ok(out) => {
+            let mut out: Pin<Box<dyn Stream<Item = Result<String, ServerFnError>> + Send>> = out.into();
+            let mut in_tx = Some(in_tx);
+            let mut next = |pool: &mut LocalPool| {
+                pool.run_until_stalled();
+                out.next().now_or_never()
+            };
+            if interactive {
+                for m in msgs {
+                    in_tx.as_ref().unwrap().unbounded_send(m.clone()).ok();
+                    match next(&mut pool) {
+                        Some(Some(item)) => seen.push(item.map(String::into_bytes).map_err(|e| show_err(&e))),
+                        Some(None) => {
+                            seen.push(Err("closed".into()));
+                            break;
+                        }
+                        None => {
+                            seen.push(Err("hang".into()));
+                            break;
+                        }
+                    }
+                }
+                in_tx.take();
+            } else {
+                for m in msgs {
+                    in_tx.as_ref().unwrap().unbounded_send(m.clone()).ok();
+                }
+                in_tx.take();
+                for _ in msgs {
+                    match next(&mut pool) {
+                        Some(Some(item)) => seen.push(item.map(String::into_bytes).map_err(|e| show_err(&e))),
+                        Some(None) => {
+                            seen.push(Err("closed".into()));
+                            break;
+                        }
+                        None => {
+                            seen.push(Err("hang".into()));
+                            break;
+                        }
+                    }
+                }
+            }
+        }
+    }
+    pool.run_until_stalled();
+    SPAWNER.with(|s| *s.borrow_mut() = None);
+    seen
 }
 
 // ------------------------------------------------------------------ streaming
@@ -1773,6 +2024,55 @@ fn op(line: &str) -> String {
                 None => "done ## fail panic".into(),
             }
         }
+        ["wcall", f, rqp, rsp, mode, wh, rest @ ..] => {
+            let (Some(rq), Some(rs), Some(wb)) = (parse_place(rqp), parse_place(rsp), unhex(wh)) else {
+                return "bad-op".into();
+            };
+            let Ok(w) = serde_json::from_slice::<Wide>(&wb) else { return "bad-op".into() };
+            let (m, kind, msg) = match (*mode, rest) {
+                ("echo", []) => (0u8, 0u8, String::new()),
+                ("fail", [v, mh]) => {
+                    let (Some(k), Some(m)) = (VARIANTS.iter().position(|x| x == v), unhex_str(mh)) else {
+                        return "bad-op".into();
+                    };
+                    (1, k as u8, m)
+                }
+                _ => return "bad-op".into(),
+            };
+            if !WIDE_FNS.contains(f) {
+                return "bad-op".into();
+            }
+            match guard(|| {
+                TRANSPORT.with(|t| {
+                    let mut t = t.borrow_mut();
+                    t.req_place = rq;
+                    t.res_place = rs;
+                });
+                wide_both(f, &w, m, kind, &msg)
+            }) {
+                Some(Some((remote, direct))) => {
+                    format!("{} ## {}", show_wide_res(&remote), if remote == direct { "ok" } else { "fail pipeline" })
+                }
+                Some(None) => "bad-op".into(),
+                None => "panic ## fail panic".into(),
+            }
+        }
+        ["ws", mode, mh] => {
+            let interactive = match *mode {
+                "interactive" => true,
+                "batch" => false,
+                _ => return "bad-op".into(),
+            };
+            let msgs: Option<Vec<String>> = if *mh == "none" { Some(vec![]) } else { mh.split(',').map(unhex_str).collect() };
+            let Some(msgs) = msgs else { return "bad-op".into() };
+            let m2 = msgs.clone();
+            let Some(remote) = guard(move || converse(true, interactive, &m2)) else {
+                SPAWNER.with(|s| *s.borrow_mut() = None);
+                return "panic ## fail panic".into();
+            };
+            let direct = converse(false, interactive, &msgs);
+            format!("{} ## {}", show_items(&remote), if remote == direct { "ok" } else { "fail websocket" })
+        }
         ["ncall", f] => {
             let run = |f: &str| -> Option<(Result<String, ServerFnError>, Result<String, ServerFnError>)> {
                 Some(match f {
@@ -2273,7 +2573,7 @@ fn gen(seed: u64, n: usize, path: &str) -> std::io::Result<()> {
     let rows = path_rows();
     for i in 0..n {
         let ty = if r.chance(1, 3) { "c" } else { "n" };
-        match r.below(27) {
+        match r.below(32) {
             0 | 1 | 2 => {
                 writeln!(f, "case {i}-errfmt")?;
                 writeln!(f, "ser {ty} {} {}", gen_variant(&mut r), hex(gen_text(&mut r, 8, ty == "c").as_bytes()))?
@@ -2413,6 +2713,49 @@ fn gen(seed: u64, n: usize, path: &str) -> std::io::Result<()> {
                         writeln!(f, "form {fname} {referer} {}", gen_tcall(&mut r, fname).split_once(' ').unwrap().1)?
                     }
                 }
+            }
+            27 | 28 | 29 => {
+                // body placement x binary codec x values with wide out-of-line data
+                writeln!(f, "case {i}-placement")?;
+                let w = Wide {
+                    id: *r.pick(&[0, 1, u32::MAX, 7]),
+                    readings: (0..r.below(4)).map(|_| *r.pick(&[0, 1, u64::MAX, 1 << 53, 0x0102030405060708])).collect(),
+                    fl: (0..r.below(4))
+                        .map(|_| *r.pick(&[0.0, -0.0, 1.5, -1e300, f64::MAX, f64::MIN_POSITIVE, 5e-324, 0.1]))
+                        .collect(),
+                    big: (0..r.below(3)).map(|_| *r.pick(&[0, 1, u128::MAX, 1 << 64, 1 << 127])).collect(),
+                    boxed: match r.below(4) {
+                        0 => None,
+                        _ => Some(Box::new(*r.pick(&[i128::MIN, i128::MAX, -1, 0, 1 << 100]))),
+                    },
+                    note: gen_text(&mut r, 4, false),
+                };
+                let wj = hex(serde_json::to_string(&w).unwrap().as_bytes());
+                let pl = |r: &mut Rng| if r.chance(1, 5) { "own".to_string() } else { r.below(16).to_string() };
+                let (a, b) = (pl(&mut r), pl(&mut r));
+                let fname = *r.pick(WIDE_FNS);
+                if r.chance(3, 4) {
+                    writeln!(f, "wcall {fname} {a} {b} echo {wj}")?
+                } else {
+                    writeln!(f, "wcall {fname} {a} {b} fail {wj} {} {}", gen_variant(&mut r), hex(gen_text(&mut r, 5, false).as_bytes()))?
+                }
+            }
+            30 | 31 => {
+                // websocket conversations: interactive (wait for answer k before sending k+1) and batch
+                writeln!(f, "case {i}-websocket")?;
+                let n = if r.chance(1, 6) { r.range(9, 20) } else { r.below(6) };
+                let msgs: Vec<String> = (0..n)
+                    .map(|_| {
+                        let t = gen_text(&mut r, 4, false);
+                        hex(if r.chance(1, 5) { format!("!{t}") } else { t }.as_bytes())
+                    })
+                    .collect();
+                writeln!(
+                    f,
+                    "ws {} {}",
+                    if r.chance(2, 3) { "interactive" } else { "batch" },
+                    if msgs.is_empty() { "none".to_string() } else { msgs.join(",") }
+                )?
             }
             24 => {
                 writeln!(f, "case {i}-noargs")?;
